@@ -15,6 +15,11 @@ struct LiveCount<Tracked>
 {
   static int n() { return reg().n; }
 };
+template <int N>
+struct LiveCount<TrackedA<N>>
+{
+  static int n() { return reg().n; }
+};
 
 struct Result
 {
@@ -24,7 +29,7 @@ struct Result
   long ops = 0;
 };
 
-template <typename P, bool OFFSET>
+template <typename P, int OFFSET>
 struct Runner : Exec<P, OFFSET>
 {
   typedef Exec<P, OFFSET> E;
@@ -60,6 +65,9 @@ struct Runner : Exec<P, OFFSET>
       if (s.eng) {
         engaged++;
         const T &v = o.value();
+        if ((uintptr_t)&v % alignof(T) != 0)
+          fail_set("alignment|address of the engaged payload is not a multiple of alignof(T)",
+              "slot " + std::to_string(i) + ": &*o = " + addr(&v) + ", alignof(T) = " + std::to_string(alignof(T)));
         bool ok = P::same(v, s.k >= 0 ? s.k : 0);  // also touches a moved-from value
         if (E::verbose)
           printf(" value=%s (model %s)", P::show(v).c_str(), s.k >= 0 ? P::show(P::val(s.k)).c_str() : "unspecified, moved-from");
@@ -112,7 +120,7 @@ struct Runner : Exec<P, OFFSET>
       for (int i = 0; i < 3; i++)
         if (h[i]) {
           h[i]->~H();
-          free(h[i]);
+          E::unmem(h[i]);
           h[i] = nullptr;
         }
       if (LiveCount<T>::n() > 0)
